@@ -668,6 +668,7 @@ func famHeap(dir string, seed int64, tier string) {
 		judge(runMarshal(x), false, fmt.Sprintf("[2]int behind %d levels of any(&x)", n/2))
 	}
 	w.flush()
+	typedNilHookInInterface(rep)
 	rep.write(dir)
 }
 
